@@ -358,3 +358,7 @@ def _borrowed_c02(an: Analysis) -> None:
     from . import c02
 
     borrow(an, c02.check, {"C02.1": "C10.7"}, keep=lambda f: "MetricsContext" in f.at or "MetricsContext" in f.message)
+    # a spawned task records into the scope it was spawned from: it runs in a copy of the spawner's context (C03.3)
+    from . import c03
+
+    borrow(an, c03.check, {"C03.3": "C10.8"})
